@@ -2,7 +2,11 @@
 Checkers of the generated C tables against the exact Bardell data — all computable by the kernel
 (`decide +kernel`).  What a successful check *means* is proved once in `Bardell/Lemmas.lean`.
 
-Tolerances are rationals `tn/td` (relative, per coefficient).
+Every table entry `e : E` (the C expression) is compared with a *wanted* sparse polynomial
+`want : Terms` over an explicit denominator `den : Nat`, built from `Bardell/Basis` + `Bardell/Exact`:
+`checkE tn td e want den` says that the normal form of `e` has exactly the monomials of `want`
+(so: exact zero pattern, exact flag monomial) and every coefficient is within the relative
+tolerance `tn/td` of the wanted one.
 -/
 import CompmechVerif.Core.CExpr
 import CompmechVerif.Bardell.Exact
@@ -25,106 +29,111 @@ def closeTerms (tn td ps den : Nat) : Terms → Terms → Bool
       && closeTerms tn td ps den gs ws
   | _, _ => false
 
-/-- expected terms `key0 + step·k ↦ sign·c_k` for `k = k0, k0+1, …`, zero coefficients dropped (ascending) -/
+/-- one expression against wanted terms over `den` -/
+def checkE (tn td : Nat) (e : E) (want : Terms) (den : Nat) : Bool :=
+  e.ok && (let nf := norm e; closeTerms tn td (10 ^ nf.s) den nf.t want)
+
+/-- a row of expressions against a row of `(want, den)` -/
+def checkRow (tn td : Nat) : List E → List (Terms × Nat) → Bool
+  | [], [] => true
+  | e :: es, w :: ws => checkE tn td e w.1 w.2 && checkRow tn td es ws
+  | _, _ => false
+
+/-- rows `i, i+1, …` against the wanted rows `W i, W (i+1), …` -/
+def checkRows (tn td : Nat) (W : Nat → List (Terms × Nat)) : Nat → List (List E) → Bool
+  | _, [] => true
+  | i, r :: rs => checkRow tn td r (W i) && checkRows tn td W (i + 1) rs
+
+/-- `[f 0 q₀, f 1 q₁, …]` -/
+def mapIdx {α β : Type} (f : Nat → α → β) : Nat → List α → List β
+  | _, [] => []
+  | j, q :: qs => f j q :: mapIdx f (j + 1) qs
+
+/-- wanted terms `key0 + step·k ↦ ±c_k` for `k = k0, k0+1, …`, zero coefficients dropped (ascending) -/
 def termsAsc (key0 step : Nat) (neg : Bool) : Nat → P → Terms
   | _, [] => []
   | k, c :: p =>
     if c = 0 then termsAsc key0 step neg (k + 1) p
     else (key0 + step * k, if neg then -c else c) :: termsAsc key0 step neg (k + 1) p
 
-/-- one expression against expected terms over `den` -/
-def checkE (tn td : Nat) (e : E) (want : Terms) (den : Nat) : Bool :=
-  e.ok && (let nf := norm e; closeTerms tn td (10 ^ nf.s) den nf.t want)
+/-- dense ascending coefficient list → sparse terms of variable 0 (descending) -/
+def toTermsAux (acc : Terms) : Nat → P → Terms
+  | _, [] => acc
+  | k, c :: p => if c = 0 then toTermsAux acc (k + 1) p else toTermsAux ((k, c) :: acc) (k + 1) p
 
-/-! ### function tables: `calc_f`, `calc_fxi`, `calc_fxixi` and `calc_vec_*` -/
+def toTerms (p : P) : Terms := toTermsAux [] 0 p
 
-def funcWant (d i : Nat) : Terms := (termsAsc (flagKey1 i) 1 false 0 (dbasis d i).num).reverse
+/-! ### function tables: `calc_f`, `calc_fxi`, `calc_fxixi` and `calc_vec_*`
+variable 0 = `xi`; entry `i`: `flag_i · Dᵈ(basis i)(xi)` (flag only for `i < 4`) -/
 
-def checkFuncFrom (tn td d : Nat) : Nat → List E → Bool
-  | _, [] => true
-  | i, e :: l => checkE tn td e (funcWant d i) (basis i).den && checkFuncFrom tn td d (i + 1) l
+def funcWant (d i : Nat) : Terms × Nat :=
+  ((termsAsc (flagKey1 i) 1 false 0 (dbasis d i).num).reverse, (basis i).den)
 
-/-- every entry `i < 30` of a function table is coefficient-wise close to `Dᵈ(basis i)`, with the
-flag of index `i < 4` as the only flag -/
-def checkFunc (tn td d : Nat) (tab : List E) : Bool :=
-  tab.length == NB && checkFuncFrom tn td d 0 tab
+def funcWantRow (d : Nat) : List (Terms × Nat) := mapIdx (fun i _ => funcWant d i) 0 (List.replicate NB ())
 
-/-! ### full-interval tables -/
+/-! ### full-interval tables: entry `(i,j)` = `flag_i·flag_j·∫_{-1}^{1} D^{d1}u_i·D^{d2}u_j`,
+the empty polynomial (exact zero) where the integral vanishes -/
 
 def fullWant (fk : Nat) (p q : P) : Terms :=
   let n := jnum p q
   if n = 0 then [] else [(fk, n)]
 
-def checkFullRow (tn td : Nat) (i : Nat) (p : QP) : Nat → List QP → List E → Bool
-  | _, [], [] => true
-  | j, q :: qs, e :: es =>
-    checkE tn td e (fullWant (flagKey2 i j) p.num q.num) (p.den * q.den * intL)
-      && checkFullRow tn td i p (j + 1) qs es
-  | _, _, _ => false
+def fullWantRow (d1 d2 i : Nat) : List (Terms × Nat) :=
+  let p := dbasis d1 i
+  mapIdx (fun j q => (fullWant (flagKey2 i j) p.num q.num, p.den * q.den * intL)) 0 (dbasisTab d2)
 
-def checkFullRows (tn td d1 : Nat) (cols : List QP) : Nat → List (List E) → Bool
-  | _, [] => true
-  | i, r :: rs => checkFullRow tn td i (dbasis d1 i) 0 cols r && checkFullRows tn td d1 cols (i + 1) rs
+/-! ### sub-interval tables `_12`: variable 1 = `xi1`, variable 0 = `xi2`;
+entry `(i,j)` = `flag_i·flag_j·(A(xi2) − A(xi1))`, `A` the antiderivative of `D^{d1}u_i·D^{d2}u_j` -/
 
-/-- rows `lo, lo+1, …` of `integral_<d1><d2>`: each of the 30 entries of each row is within `tn/td` of
-`flag_i·flag_j·∫_{-1}^{1} D^{d1}u_i·D^{d2}u_j`, exact zero where the integral vanishes -/
-def checkFull (tn td d1 d2 lo n : Nat) (rows : List (List E)) : Bool :=
-  rows.length == n && checkFullRows tn td d1 (dbasisTab d2) lo rows
+/-- `(k, c) ↦ (fk + step·(k+1), ± c·intL/(k+1))`: the antiderivative, term by term -/
+def antiTerms (fk step : Nat) (neg : Bool) : Terms → Terms
+  | [] => []
+  | x :: xs =>
+    let c := x.2 * ((intL / (x.1 + 1) : Nat) : Int)
+    (fk + step * (x.1 + 1), if neg then -c else c) :: antiTerms fk step neg xs
 
-/-! ### sub-interval tables `_12` -/
+def subWant (fk : Nat) (p q : Terms) : Terms :=
+  let a := mulTerms p q
+  antiTerms fk 128 true a ++ antiTerms fk 1 false a
 
-def subWant (fk : Nat) (p q : P) : Terms :=
-  let a := antiProd p q
-  (termsAsc fk 1 false 1 a ++ termsAsc fk 128 true 1 a).reverse
+def subWantRow (d1 d2 i : Nat) : List (Terms × Nat) :=
+  let p := dbasis d1 i
+  let pt := toTerms p.num
+  mapIdx (fun j q => (subWant (flagKey2 i j) pt (toTerms q.num), p.den * q.den * intL)) 0 (dbasisTab d2)
 
-def checkSubRow (tn td : Nat) (i : Nat) (p : QP) : Nat → List QP → List E → Bool
-  | _, [], [] => true
-  | j, q :: qs, e :: es =>
-    checkE tn td e (subWant (flagKey2 i j) p.num q.num) (p.den * q.den * intL)
-      && checkSubRow tn td i p (j + 1) qs es
-  | _, _, _ => false
-
-def checkSubRows (tn td d1 : Nat) (cols : List QP) : Nat → List (List E) → Bool
-  | _, [] => true
-  | i, r :: rs => checkSubRow tn td i (dbasis d1 i) 0 cols r && checkSubRows tn td d1 cols (i + 1) rs
-
-/-- rows `lo…` of `integral_<d1><d2>_12(xi1, xi2, i, j, flags)` (variable 1 = `xi1`, 0 = `xi2`):
-coefficient-wise within `tn/td` of `flag_i·flag_j·(A(xi2) − A(xi1))`, `A' = D^{d1}u_i·D^{d2}u_j` -/
-def checkSub (tn td d1 d2 lo n : Nat) (rows : List (List E)) : Bool :=
-  rows.length == n && checkSubRows tn td d1 (dbasisTab d2) lo rows
-
-/-! ### mapped-argument tables `_c0c1` -/
+/-! ### mapped-argument tables `_c0c1`: variable 1 = `c0`, variable 0 = `c1`;
+entry `(i,j)` = `flag_i·flag_j·∫_{-1}^{1} D^{d1}u_i(ξ)·D^{d2}u_j(c0 + c1·ξ) dξ`
+            = `Σ_{a,t} q_{a+t}·C(a+t,t)·μ_t(p)·c0^a·c1^t`,  `μ_t(p) = ∫ p(ξ)·ξ^t dξ` -/
 
 /-- terms `key0 + t ↦ q_{a+t}·C(a+t,t)·μ_t` for `t = 0,1,…` (ascending) -/
-def mapRow : Nat → P → List Nat → List Int → Terms
+def mapRowTerms : Nat → P → List Nat → List Int → Terms
   | key, qm :: q, c :: cs, mu :: ms =>
     let v := qm * (c : Int) * mu
-    if v = 0 then mapRow (key + 1) q cs ms else (key, v) :: mapRow (key + 1) q cs ms
+    if v = 0 then mapRowTerms (key + 1) q cs ms else (key, v) :: mapRowTerms (key + 1) q cs ms
   | _, _, _, _ => []
 
 /-- all terms, ascending: power `a` of `c0` (variable 1), power `t` of `c1` (variable 0) -/
 def mapAll (fk : Nat) (ms : List Int) : Nat → P → List (List Nat) → Terms
-  | a, q :: qt, d :: ds => mapRow (fk + 128 * a) (q :: qt) d ms ++ mapAll fk ms (a + 1) qt ds
+  | a, q :: qt, d :: ds => mapRowTerms (fk + 128 * a) (q :: qt) d ms ++ mapAll fk ms (a + 1) qt ds
   | _, _, _ => []
 
 def mapWant (fk : Nat) (ms : List Int) (q : P) : Terms := (mapAll fk ms 0 q diags).reverse
 
-def checkMapRow (tn td : Nat) (i : Nat) (pden : Nat) (ms : List Int) : Nat → List QP → List E → Bool
-  | _, [], [] => true
-  | j, q :: qs, e :: es =>
-    checkE tn td e (mapWant (flagKey2 i j) ms q.num) (pden * q.den * intL)
-      && checkMapRow tn td i pden ms (j + 1) qs es
-  | _, _, _ => false
+def mapWantRow (d1 d2 i : Nat) : List (Terms × Nat) :=
+  let p := dbasis d1 i
+  let ms := mus p.num
+  mapIdx (fun j q => (mapWant (flagKey2 i j) ms q.num, p.den * q.den * intL)) 0 (dbasisTab d2)
 
-def checkMapRows (tn td d1 : Nat) (cols : List QP) : Nat → List (List E) → Bool
-  | _, [] => true
-  | i, r :: rs =>
-    (let p := dbasis d1 i; checkMapRow tn td i p.den (mus p.num) 0 cols r)
-      && checkMapRows tn td d1 cols (i + 1) rs
+/-! ### tolerances (relative, per coefficient), calibrated on the unchanged tables
 
-/-- rows `lo…` of `integral_<d1><d2>_c0c1(c0, c1, i, j, flags)`: coefficient-wise within `tn/td` of the
-binomial expansion of `flag_i·flag_j·∫_{-1}^{1} D^{d1}u_i(ξ)·D^{d2}u_j(c0 + c1·ξ) dξ` -/
-def checkMap (tn td d1 d2 lo n : Nat) (rows : List (List E)) : Bool :=
-  rows.length == n && checkMapRows tn td d1 (dbasisTab d2) lo rows
+* function and full-interval tables: one 15-significant-digit literal per coefficient; a correctly
+  rounded 15-digit literal is within `5·10⁻¹⁵` of the exact value.  Largest observed on the
+  unchanged tree: `4.59·10⁻¹⁵` (function tables), `4.25·10⁻¹⁵` (full-interval tables).
+* `_12` and `_c0c1` tables: products of two such literals; largest observed `7.9·10⁻¹⁵`
+  (`integral_ff_12(8,25)`, monomial `xi2³²`) resp. `7.4·10⁻¹⁵`; tolerance = 10 × that, rounded: `10⁻¹³`. -/
+def tolFuncN : Nat := 5
+def tolFuncD : Nat := 10 ^ 15
+def tolSubN : Nat := 1
+def tolSubD : Nat := 10 ^ 13
 
 end Compmech.C10
